@@ -16,7 +16,9 @@ use rrss::analysis::visit::VisitExpr;
 use rrss::frontend::ast as a;
 
 fn const_leaf(rng: &mut Rng) -> Expr {
-    let n = match rng.below(12) {
+    let n = match rng.below(13) {
+        // a literal too large for a double (spelled 1e999): it is the number inf
+        12 => f64::INFINITY,
         0 => 0.0,
         1 => 1.0,
         2 => 0.5,
@@ -106,7 +108,10 @@ fn count_leaves(e: &Expr) -> usize {
 
 fn forbidden(rng: &mut Rng) -> (Expr, &'static str) {
     let x = simple("Xeno");
-    match rng.below(7) {
+    match rng.below(10) {
+        7 => (Expr::Prim(Prim::Pop(Box::new(Prim::Lit(Lit::Num(5.0))))), "pop"),
+        8 => (Expr::Prim(Prim::Pop(Box::new(Prim::Pop(Box::new(Prim::Lit(Lit::Num(5.0))))))), "pop"),
+        9 => (Expr::Prim(Prim::Sub(Box::new(Prim::Lit(Lit::Num(5.0))), Box::new(Prim::Lit(Lit::Num(0.0))))), "element_of_a_literal"),
         0 => (var(&x), "variable"),
         1 => (var(&Name::Common("the".into(), "night".into())), "common_variable"),
         2 => (var(&Name::Proper(vec!["Tom".into(), "Sawyer".into()])), "proper_variable"),
